@@ -120,7 +120,7 @@ def check_row_merge(R, F, cfg, cap):
     ex.templates = [lambda v: BOUND - v]
     self_adt = rec["container"]["self_ty"]["def"]
     snames = [f["name"] for f in F.adts[self_adt]["variants"][0]["fields"]]
-    u16s = [f["name"] for f in F.adts[self_adt]["variants"][0]["fields"] if f["ty"].get("k") == "int"]
+    u16s = [n_ for n_, _p, t_ in C.flat_field_types(F, self_adt) if t_.get("k") == "int"]
     assume = [BOUND - sym_int("*self.%s" % n, 16, False) for n in u16s]
     tag = "%s|%s::next" % (cfg, self_adt.split("::")[-1])
     try:
